@@ -1146,7 +1146,7 @@ def check_C02(rep, prog, tier):
     dl = tier_deadline(tier, 480, 3000)
     rep.bounds = {'reuse': 'basis entry and source entry of one file with solver-chosen (seconds, nanoseconds) mtimes and sizes; content changed or not',
                   'selection': 'band-id sets drawn from 0,3,9998,9999,10000,100000 (up to 3 ids), each band open or closed',
-                  'history': 'backup(T1); backup(T2: /a rewritten, /b added with the content of /c); delete the first version; backup(T2) again; symbolic sizes and options; every completed version checked after every step'}
+                  'history': 'on one Archive value: backup(T1); backup(T2: /a rewritten, /b added with the content of /c); delete the first version; backup(T2) again; backup(T1 content again, newer mtime); symbolic sizes and options; every completed version checked after every step'}
     rep.assumptions += BC.COMMON_ASSUMPTIONS + [
         'arbitrary histories are covered as an inductive step, not as a search: an operation preserves every other completed version if it never changes an existing file (C07), records only correct entries (C03/C04/C13), removes only unreferenced blocks (C05) and lists by the stitching rule (C08); one concrete bounded history is explored in addition',
         'the property\'s premise is assumed: a content change comes with a new mtime or a new size']
@@ -1171,6 +1171,13 @@ def check_C02(rep, prog, tier):
             if out.get('Latest') != nm(max(smp['ids'])) or (want_lc is not None and out.get('LatestClosed') != want_lc) or \
                     (want_lc is None and not str(out.get('LatestClosed', '')).startswith('Err')):
                 inc = list(inc) + ['model/implementation disagreement on band set %s: native %s (%s)' % (smp, out, path)]
+            else:
+                rep.diff_vectors += 1
+        if res.get('samples') and not res['bad'] and not inc and (res['samples'][0].get('scenario') or {}).get('kind') == 'history':
+            # conformance: the same history run natively on one Archive value keeps every complete version restorable
+            out, path = runner.replay(res['samples'][0]['scenario'], 'C02_conformance')
+            if out.get('broken') or out.get('panic') or any(not s_.get('ok') for s_ in out.get('steps', [])) or len(out.get('steps', [])) != 5:
+                inc = list(inc) + ['model/implementation disagreement on the bounded history: native %s (%s)' % (str(out)[:300], path)]
             else:
                 rep.diff_vectors += 1
         stats = _stats(st)
@@ -1220,7 +1227,19 @@ def check_C02(rep, prog, tier):
         sets = [s_ for s_ in sets if len(s_) <= 2] + [[3, 9999, 10000], [0, 10000, 100000]]
     for ids in sets:
         run('LatestClosed / Latest select the newest complete / newest version among %s' % ids, B.make_selection(prog, ids), sel_judge)
-    run('bounded history: every completed version keeps resolving to its own snapshot after every step', B.make_history(prog))
+    def hist_judge(b):
+        # the same history on one Archive value, natively: some complete version must fail to restore to its tree
+        # (or, for the 'wrote blocks again' oracle, the third backup must have written blocks)
+        def jf(out):
+            if out.get('panic'):
+                return True
+            if any('wrote blocks again' in p for p in b.get('problems', [])):
+                third = [s_ for s_ in out.get('steps', []) if s_.get('step') == 3]
+                if third and third[0].get('written_blocks', 0) > 0:
+                    return True
+            return bool(out.get('broken')) or any(not s_.get('ok') for s_ in out.get('steps', []))
+        return b.get('scenario'), jf
+    run('bounded history: every completed version keeps resolving to its own snapshot after every step', B.make_history(prog), hist_judge)
 
 
 def check_C06(rep, prog, tier):
